@@ -560,6 +560,20 @@ def real_vcs(impl, c_real):
     return out
 
 
+_VIOL_COUNT = {}
+
+
+def viol(ctx, key, what, replay):
+    """ctx.violation, with at most 8 written-out failing inputs per class of failure (the text
+    before the first ':' of the key); further ones are only counted."""
+    cls = key.split(":", 1)[0]
+    _VIOL_COUNT[cls] = _VIOL_COUNT.get(cls, 0) + 1
+    if _VIOL_COUNT[cls] > 8:
+        ctx.count("violations-not-written-out:" + cls)
+        return "capped"
+    return ctx.violation(key, what, replay)
+
+
 def classify_exc(e):
     return type(e).__name__
 
@@ -585,7 +599,7 @@ def vc_case(ctx, impl, logic, pre, c, post, label, lines, pending):
         raise
     except Exception as e:  # noqa
         ctx.count("vcs:impl-raise:" + classify_exc(e))
-        ctx.violation("vcs-raise:%s:%s" % (classify_exc(e), key), "compute_wp/get_lines raised %s: %s on %s" % (classify_exc(e), str(e)[:100], key),
+        viol(ctx, "vcs-raise:%s:%s" % (classify_exc(e), key), "compute_wp/get_lines raised %s: %s on %s" % (classify_exc(e), str(e)[:100], key),
                       {"kind": "vcs", "pre": pre, "com": c, "post": post})
         return
     if [str(v) for v in vcs_obj] != vcs_str or not (ret == cr.pre[0]):
@@ -614,7 +628,10 @@ def oracle_a(ctx, logic, rec, vs, grid, vcs_hol):
 
     def vcs_hold_at(st):
         for h, a in zip(vcs_hol, vcs_ast):
-            v = hol_eval(h, st, logic)
+            try:
+                v = hol_eval(h, st, logic)
+            except Exception:  # noqa
+                v = None
             if v is None:
                 v = ev(a, st)
             if v is not True:
@@ -641,7 +658,7 @@ def oracle_a(ctx, logic, rec, vs, grid, vcs_hol):
         # Postcondition violated: the soundness proof uses the VCs only at visited states, so this is
         # a counterexample to soundness iff the VCs also hold at every visited state.
         if all(vcs_hold_at(v) for v in visited):
-            ctx.violation("vcs-unsound:" + rec["key"],
+            viol(ctx, "vcs-unsound:" + rec["key"],
                           "all VCs hold on the grid and on every visited state, but from %s the program ends in %s where the postcondition is false"
                           % (st, {k: fin.get(k, 0) for k in vs}),
                           {"kind": "vcs", "pre": pre, "com": c, "post": post, "init": st, "final": fin, "vcs": rec["vcs_str"]})
@@ -660,25 +677,34 @@ def check_print_parse(ctx, impl, logic, e, s, hol, vs, what):
     except Timeout:
         raise
     except Exception as ex:  # noqa
-        ctx.violation("print-unparsable:%s" % s, "printed %s %r is rejected by cond_parser (%s)" % (what, s, classify_exc(ex)),
+        viol(ctx, "print-unparsable:%s" % s, "printed %s %r is rejected by cond_parser (%s)" % (what, s, classify_exc(ex)),
                       {"kind": "pp", "expr": e, "printed": s})
         return
     ctx.count("pp:%s:%s" % (what, "identical" if back == norm_negconst(e) else "different-tree"))
     if back != norm_negconst(e):
         for st in grid:
             if ev(back, st) != ev(e, st):
-                ctx.violation("print-parse-meaning:%s" % s,
+                viol(ctx, "print-parse-meaning:%s" % s,
                               "%s prints as %r, which parser2 reads as an expression with a different value at %s" % (what, s, st),
                               {"kind": "pp", "expr": e, "printed": s, "reparsed": back, "state": st})
                 return
     if hol is not None:
+        from kernel.term import Term
+        if not isinstance(hol, Term):
+            viol(ctx, "convert-hol-not-a-term:%s" % s, "convert_hol of %r returned a %s, not a HOL term" % (s, type(hol).__name__),
+                          {"kind": "pp", "expr": e, "printed": s})
+            return
         for st in grid:
-            hv, evv = hol_eval(hol, st, logic), ev(e, st)
+            try:
+                hv = hol_eval(hol, st, logic)
+            except Exception:  # noqa  (a term the evaluator does not understand)
+                hv = None
+            evv = ev(e, st)
             if hv is None and evv is not None:
                 ctx.count("hol-eval:not-understood")
                 break
             if hv != evv:
-                ctx.violation("convert-hol-meaning:%s" % s, "convert_hol of %r denotes %s at %s, the expression %s" % (s, hv, st, evv),
+                viol(ctx, "convert-hol-meaning:%s" % s, "convert_hol of %r denotes %s at %s, the expression %s" % (s, hv, st, evv),
                               {"kind": "pp", "expr": e, "printed": s, "state": st})
                 return
 
@@ -705,7 +731,7 @@ def vcs_stage(ctx, impl, logic):
     rng = ctx.rng("vcs")
     lines, pending = [], []
     vs3 = VARS[:3]
-    n = ctx.scale(260, 4000)
+    n = ctx.scale(260, 1800)
     # F1: everything random (mostly failing VCs; exercises the lists' shape)
     for _ in range(n):
         vs = VARS[:rng.choice([1, 2, 2, 3, 3, 4])]
@@ -811,7 +837,7 @@ def model_parse_result(line, com=False):
 
 def pp_stage(ctx, impl, logic):
     rng = ctx.rng("pp")
-    n = ctx.scale(1500, 25000)
+    n = ctx.scale(1500, 15000)
     conds = []
     for i in range(n):
         vs = ["a", "b", "x1"]
@@ -844,7 +870,7 @@ def pp_stage(ctx, impl, logic):
         try:
             s = str(impl.to_real(e))
         except Exception as ex:  # noqa
-            ctx.violation("print-raise:%s" % sexp.dumps(s_expr(e)), "__str__ raised %s" % classify_exc(ex), {"kind": "pp", "expr": e})
+            viol(ctx, "print-raise:%s" % sexp.dumps(s_expr(e)), "__str__ raised %s" % classify_exc(ex), {"kind": "pp", "expr": e})
             s = None
         strs.append(s)
         lines.append(sexp.dumps(["pp", s_expr(e)]))
@@ -888,7 +914,7 @@ def pp_stage(ctx, impl, logic):
             "~ if a==b then c==d else e==f & g == h", "a == b & if a==b then c==d else e==f | g == h", "", "(", "a ==", "a - -b == 0", "a == --1",
             "a -- > b", "a == b-->c == d", "a<b", "a<=b&b<=c|~a!=c", "(true)", "~(true)", "( a ) + ( b ) * ( c ) < - ( d )"]
     pstrs = list(hand)
-    for s in strs[:ctx.scale(600, 8000)]:
+    for s in strs[:ctx.scale(600, 6000)]:
         if s is not None:
             pstrs.append(perturb(rng, s, TOKS))
     lines = [sexp.dumps(["parsecond", sexp.enc(s)]) for s in pstrs]
@@ -922,7 +948,7 @@ def com_pp_stage(ctx, impl):
         try:
             text = "\n".join(impl.to_real_com(c).print_com({v: "int" for v in vs}))
         except Exception as ex:  # noqa
-            ctx.violation("print-com-raise:%s" % sexp.dumps(s_com(c)), "print_com raised %s" % classify_exc(ex), {"kind": "compp", "com": c})
+            viol(ctx, "print-com-raise:%s" % sexp.dumps(s_com(c)), "print_com raised %s" % classify_exc(ex), {"kind": "compp", "com": c})
             text = None
         texts.append(text)
         lines.append(sexp.dumps(["ppcom", s_com(c)]))
@@ -960,30 +986,12 @@ def com_pp_stage(ctx, impl):
             disagree("com_parser on %r: impl %s model %s" % (text, r_p, m_p))
             continue
         if r_p[0] != "ok":
-            ctx.violation("print-com-unparsable:" + text, "print_com output %r is rejected by com_parser" % text, {"kind": "compp", "com": c})
+            viol(ctx, "print-com-unparsable:" + text, "print_com output %r is rejected by com_parser" % text, {"kind": "compp", "com": c})
             continue
         same = r_p[1] == norm_negconst_com(c)
         ctx.count("compp:%s" % ("identical" if same else "different-tree"))
         if not same:
-            vs = sorted(vars_of(c, set()))
-            for vals in itertools.product((-1, 0, 2), repeat=len(vs)):
-                st = dict(zip(vs, vals))
-                res = []
-                for prog in (c, r_p[1]):
-                    try:
-                        f = run_ref(prog, st, [400])
-                        res.append(tuple(f.get(v, 0) for v in vs))
-                    except OutOfFuel:
-                        res.append("fuel")
-                    except (Stuck, RecursionError):
-                        res.append("stuck")
-                if "fuel" in res:
-                    continue
-                if res[0] != res[1]:
-                    ctx.violation("print-com:seq-after-cond" if seq_after_cond(c) else "print-com-meaning:" + text,
-                                  "program prints as %r which com_parser reads as a program that behaves differently from %s: %s vs %s" % (text, st, res[0], res[1]),
-                                  {"kind": "compp", "com": c, "state": st})
-                    break
+            check_com_roundtrip(ctx, impl, c)
     base = 2 * len(coms)
     for j, s in enumerate(extra):
         r_p, m_p = parse_real(impl, s, com=True), model_parse_result(out[base + j], com=True)
@@ -993,6 +1001,34 @@ def com_pp_stage(ctx, impl):
             continue
         if (r_p[0] == "ok") != (m_p[0] == "ok") or (r_p[0] == "ok" and r_p[1] != m_p[1]):
             disagree("com_parser on %r: impl %s model %s" % (s, r_p, m_p))
+
+
+def check_com_roundtrip(ctx, impl, c):
+    """Implementation-only part of the program print/parse check (used by --replay)."""
+    vs = sorted(vars_of(c, set()))
+    text = "\n".join(impl.to_real_com(c).print_com({v: "int" for v in vs}))
+    r_p = parse_real(impl, text, com=True)
+    if r_p[0] != "ok":
+        viol(ctx, "print-com-unparsable:" + text, "print_com output %r is rejected by com_parser" % text, {"kind": "compp", "com": c})
+        return
+    if r_p[1] == norm_negconst_com(c):
+        return
+    for vals in itertools.product((-1, 0, 2), repeat=len(vs)):
+        st = dict(zip(vs, vals))
+        res = []
+        for prog in (c, r_p[1]):
+            try:
+                f = run_ref(prog, st, [400])
+                res.append(tuple(f.get(v, 0) for v in vs))
+            except OutOfFuel:
+                res.append("fuel")
+            except (Stuck, RecursionError):
+                res.append("stuck")
+        if "fuel" not in res and res[0] != res[1]:
+            viol(ctx, "print-com:seq-after-cond" if seq_after_cond(c) else "print-com-meaning:" + text,
+                          "program prints as %r which com_parser reads as a program that behaves differently from %s: %s vs %s" % (text, st, res[0], res[1]),
+                          {"kind": "compp", "com": c, "state": st})
+            return
 
 
 def seq_after_cond(c):
@@ -1132,7 +1168,7 @@ def sem_stage(ctx):
     from data.function import mk_const_fun, mk_fun_upd
     rng = ctx.rng("sem")
     names = ["a", "b", "c", "d"]
-    n = ctx.scale(90, 1500)
+    n = ctx.scale(90, 900)
     lines, recs = [], []
     ncheck = ntimeout = 0
     for i in range(n):
@@ -1172,12 +1208,12 @@ def sem_stage(ctx):
         prop = pt.prop
         ok_shape = prop.is_comb("Sem", 3) and prop.args[0] == com and prop.args[1] == st and len(pt.hyps) == 0
         fin = decode_nat_state(prop.args[2], names) if ok_shape else None
-        replay = {"kind": "sem", "src": src, "init": init}
+        replay = {"kind": "sem", "src": src, "init": init, "com": c}
         if not ok_shape or fin is None:
-            ctx.violation("sem-shape:" + src, "eval_Sem returned %s, not a closed theorem Sem c s <numeral state>" % pt.th, replay)
+            viol(ctx, "sem-shape:" + src, "eval_Sem returned %s, not a closed theorem Sem c s <numeral state>" % pt.th, replay)
             continue
         if fin != ref:
-            ctx.violation("sem-wrong-state:%s:%s" % (src, sorted(init.items())),
+            viol(ctx, "sem-wrong-state:%s:%s" % (src, sorted(init.items())),
                           "eval_Sem proves final state %s for %r from %s; executing the program gives %s" % (fin, src, init, ref), replay)
             continue
         if ncheck < ctx.scale(25, 300):
@@ -1186,11 +1222,11 @@ def sem_stage(ctx):
                 with time_limit(120):
                     th = theory.check_proof(pt.export())
                 if th != pt.th:
-                    ctx.violation("sem-proof:" + src, "the proof exported by eval_Sem checks to a different theorem", replay)
+                    viol(ctx, "sem-proof:" + src, "the proof exported by eval_Sem checks to a different theorem", replay)
             except Timeout:
                 ctx.count("sem:check-timeout")
             except Exception as e:  # noqa
-                ctx.violation("sem-proof:" + src, "the proof exported by eval_Sem is rejected by the checker (%s)" % classify_exc(e), replay)
+                viol(ctx, "sem-proof:" + src, "the proof exported by eval_Sem is rejected by the checker (%s)" % classify_exc(e), replay)
         lines.append(sexp.dumps(["interp", 100000, s_com(c), [[k, v] for k, v in sorted(init.items())], names]))
         recs.append((src, init, fin))
     if recs:
@@ -1427,7 +1463,7 @@ def replay_one(ctx, impl, logic, r):
     elif kind == "sem":
         sem_replay(ctx, r)
     elif kind == "compp":
-        pass
+        check_com_roundtrip(ctx, impl, tup(r["com"]))
 
 
 def sem_replay(ctx, r):
@@ -1443,10 +1479,12 @@ def sem_replay(ctx, r):
     com = P1.parse_com(r["src"])
     pt = imp.eval_Sem(com, st)
     fin = decode_nat_state(pt.prop.args[2], names)
-    # reference: parse the source with the harness' own reading (right-nested)
-    ctx.log("eval_Sem final state: %s" % fin)
-    if "expected" in r and fin != r["expected"]:
-        ctx.violation("sem-wrong-state:" + r["src"], "eval_Sem final state %s, expected %s" % (fin, r["expected"]), r)
+    ref = run_ref(tup(r["com"]), dict(r["init"]), [2000])
+    ref = {v: ref.get(v, 0) for v in names}
+    ctx.log("eval_Sem final state: %s; reference interpreter: %s" % (fin, ref))
+    if fin != ref:
+        viol(ctx, "sem-wrong-state:%s:%s" % (r["src"], sorted(r["init"].items())),
+                      "eval_Sem proves final state %s for %r from %s; executing the program gives %s" % (fin, r["src"], r["init"], ref), r)
 
 
 def replay(ctx, rp):
@@ -1461,27 +1499,39 @@ def replay(ctx, rp):
 
 
 MANIFEST = {
-    "text": "Lean theorems about an executable model of imperative/{expr,com,parser2}.py: every VC list produced by compute_wp/get_vcs is "
-            "sound for partial correctness w.r.t. a big-step semantics (vcs_sound), the fuel interpreter agrees with it (interp_sound, "
-            "exec_deterministic), the printer followed by the grammar (as LALR-with-shift reads it) returns the same expression on "
-            "tokens (print_parse_sem), and the Sem rules and Hoare rules of library/hoare.json, re-translated on every run, are adequate / "
-            "valid for that semantics (sem_adequate, hoare_rules_valid). The model is tied to the code by differential runs (pre/post lists, "
-            "VC ASTs and strings, printer, parser incl. perturbed strings, evaluation, eval_Sem final states); the implementation's own VCs, "
-            "printed conditions and eval_Sem theorems are judged by a reference interpreter on the grid -3..3.",
-    "note": "Trusted: Lean kernel, propext/Classical.choice/Quot.sound, the harness (generators, reference evaluator, hoare.json translator), "
-            "Lark's LALR tables/lexer (grammar model tied by differential parsing), the holpy kernel for eval_Sem's theorems. Not modelled: "
-            "arrays/fields/forall, functions of arity > 2, string-level lexing in the round-trip theorem (tokens only).",
+    "text": "Lean theorems about an executable model of imperative/{expr,com,parser2}.py (with fixes C20-1..4): vcs_sound (every VC list "
+            "compute_wp/get_vcs produces is sound for partial correctness w.r.t. the big-step semantics Exec, any program/assertions/states, no "
+            "bound), exec_deterministic, interp_sound + interp_complete (fuel interpreter = Exec), print_parse_tokens / print_parse_id / "
+            "print_parse_sem_partial (the fixed printer followed by parser2's grammar as LALR-with-shift reads it returns the same condition, "
+            "on token sequences), sem_adequate (the Sem predicate of library/hoare.json, re-translated on every run, coincides with Exec on "
+            "well-sorted programs) and hoare_rules_valid (Sem_Skip, Sem_Assign and the six Hoare rules imp.vcg applies, three of which carry no "
+            "proof in the library). The model is tied to the code by differential runs: pre/post lists of every sub-command, VC ASTs and VC "
+            "strings, printer, parser (valid and token-perturbed strings, conditions and programs), expression evaluation, interpreter, "
+            "imp.eval_Sem final states. The implementation's own outputs are judged by a reference interpreter: VC truth (as the HOL terms "
+            "handed to the user) on the grid -3..3 and all visited states versus executions from every grid state satisfying the precondition; "
+            "printed-and-re-parsed conditions and convert_hol terms evaluated on the grid; eval_Sem theorems versus direct execution, exported "
+            "proofs re-checked.",
+    "note": "Trusted: Lean kernel, propext/Quot.sound, the harness (generators, reference evaluator/interpreter, hoare.json translator, HOL-term "
+            "evaluator), Lark's LALR tables and contextual lexer (grammar model tied by differential parsing), the holpy kernel for eval_Sem's "
+            "theorems. Partial: the round-trip theorem is on tokens; lex(pp e) = toks e is checked on every generated expression, not proved. Not "
+            "modelled: arrays/fields/forall (no convert_hol exists for them, so no VC can contain them), functions of arity > 2, identifiers that "
+            "are keywords, the operators >=, >, <--> and the constant false in the printed language (no concrete syntax in parser2, never produced "
+            "by compute_wp). Known: print_com cannot express a sequence whose first part ends in a conditional.",
     "design_ref": "DESIGN.md 4/C20",
 }
 FINDINGS = [
     {"status": "fixed", "key": "print-parse-meaning:a - b - c == 0", "commit": "fixes/C20-1.patch",
-     "what": "Op.__str__ dropped parentheses parser2 needs: (a - b) - c printed 'a - b - c' (read back as a - (b - c)), ~(A & B) printed "
-             "'~A & B', (A --> B) --> C printed 'A --> B --> C', (-a) + b printed '-a + b' (read back as -(a + b))"},
-    {"status": "fixed", "key": "vcs-raise:AssertionError:while-without-invariant", "commit": "fixes/C20-2.patch",
-     "what": "parser2 passed the HOL constant true as loop invariant, so 'while (b) { c }' raised AssertionError"},
+     "what": "Op.__str__ dropped parentheses parser2 needs: (a - b) - c printed 'a - b - c' (read back as a - (b - c)), (a * b) + c printed "
+             "'a * b + c' (read back as a * (b + c)), ~(A & B) printed '~A & B', (A --> B) --> C printed 'A --> B --> C', (-a) + b printed "
+             "'-a + b' (read back as -(a + b)); VCs shown to and re-parsed from the user could mean something else than the VCs computed"},
+    {"status": "fixed", "key": "parse-raise:AssertionError:while (a == b) { x := 1 }", "commit": "fixes/C20-2.patch",
+     "what": "parser2 passed the HOL constant true as loop invariant, so every 'while (b) { c }' without invariant raised AssertionError"},
     {"status": "fixed", "key": "vcs-raise:TypeError:const-true-under-connective", "commit": "fixes/C20-3.patch",
-     "what": "Const(True).convert_hol returned an imperative expression (module-level `true` is rebound), get_vcs raised TypeError for every "
-             "VC with `true` below a connective"},
+     "what": "Const(True).convert_hol returned an imperative expression (module-level `true` is rebound in expr.py); get_vcs raised TypeError for "
+             "every VC with `true` below a connective, e.g. any loop with invariant true"},
+    {"status": "fixed", "key": "print-unparsable:vc-with-semicolon", "commit": "fixes/C20-4.patch",
+     "what": "get_lines appended the ';' of a sequence to the last line, which after a loop is the VC 'I & ~b --> Q': get_vcs returned "
+             "'... --> Q;', rejected by cond_parser, and print_com showed '}' without ';'"},
     {"status": "known", "key": "print-com:seq-after-cond",
      "what": "print_com has no way to close an else-branch: Seq(Cond(b,c1,c2),c3) prints like Cond(b,c1,Seq(c2,c3)) and com_parser reads it "
              "so (programs only; conditions are unaffected; parser2 cannot produce such a tree)"},
